@@ -19,8 +19,8 @@ pub mod c11;
 pub mod c12;
 pub mod c13;
 pub mod c15;
-// TMP pub mod c16;
-// TMP pub mod c18;
+pub mod c16;
+pub mod c18;
 
 pub const ASSUME_REF: &str = "oracle = independent spec-literal FIPS 204 reference (validated at start-up on the 75 keyGen / 60 sigGen / 45 sigVer ACVP vectors and one external pure-mode KAT); the HashML-DSA wrapper (Algorithms 4/5: domain byte, OIDs, digest lengths) is validated by review only";
 
@@ -41,8 +41,8 @@ pub fn run(id: &str, ctx: &Ctx) -> Option<Report> {
         "C12" => c12::run(ctx, &mut rep),
         "C13" => c13::run(ctx, &mut rep),
         "C15" => c15::run(ctx, &mut rep),
-// TMP         "C16" => c16::run(ctx, &mut rep),
-// TMP         "C18" => c18::run(ctx, &mut rep),
+        "C16" => c16::run(ctx, &mut rep),
+        "C18" => c18::run(ctx, &mut rep),
         _ => return None,
     }
     Some(rep)
@@ -65,8 +65,8 @@ pub fn replay(id: &str, ctx: &Ctx, sub: &str, case: &Value) -> Option<CheckResul
         "C12" => c12::replay(ctx, sub, case),
         "C13" => c13::replay(ctx, sub, case),
         "C15" => c15::replay(ctx, sub, case),
-// TMP         "C16" => c16::replay(ctx, sub, case),
-// TMP         "C18" => c18::replay(ctx, sub, case),
+        "C16" => c16::replay(ctx, sub, case),
+        "C18" => c18::replay(ctx, sub, case),
         _ => None,
     }
 }
